@@ -130,6 +130,7 @@ def cases(tier, seed):
     for shape, ninf in (((2,), 1), ((2, 2), 1), ((), 2)):
         out.append(dict(kind="bfs", shape=list(shape), ninf=ninf, depth=3 if tier == "quick" else 4))
     out.append(dict(kind="recursion"))
+    out.append(dict(kind="dependent"))
     return out
 
 
@@ -216,6 +217,8 @@ def run_case(case):
         return run_bfs(case)
     elif kind == "recursion":
         return run_recursion()
+    elif kind == "dependent":
+        return run_dependent()
     return dict(violations=[dict(what=w, key=None) for w in V[:5]], nontrivial=nontrivial,
                 outcome="ok" if not V else "violation", stats=dict(index_expressions=n),
                 sample=dict(kind=kind, shape=case.get("shape"), ninf=case.get("ninf"),
@@ -318,3 +321,78 @@ def run_recursion():
         V.append("well-founded recursion gives a wrong value")
     return dict(violations=[dict(what=w, key=None) for w in V], nontrivial=True, outcome="recursion",
                 stats=dict(recursion_scenarios=scenarios), sample=dict(kind="recursion", scenarios=scenarios))
+
+
+def run_dependent():
+    """Series whose elements depend on other elements of the same series (adjoint-style fill,
+    backward recurrence): multi-element requests must evaluate every element at most once and
+    return the same values as element-by-element requests on a fresh series."""
+    from pymablock.series import BlockSeries
+
+    V = []
+    n_req = 0
+
+    def herm_series(log):
+        s = BlockSeries(shape=(2, 2), n_infinite=1, name="Hd")
+
+        def ev(i, j, n):
+            log.append((int(i), int(j), int(n)))
+            if i < j:  # upper blocks are defined through the lower ones
+                return "adj(" + s[j, i, n] + ")"
+            return f"b{i}{j}{n}"
+
+        s.eval = ev
+        return s
+
+    def back_series(log, top=4):
+        s = BlockSeries(shape=(), n_infinite=1, name="y")
+
+        def ev(n):
+            log.append((int(n),))
+            if n >= top:
+                return f"y{n}"
+            return f"f({s[n + 1]})"
+
+        s.eval = ev
+        return s
+
+    def model_h(i, j, n):
+        return f"adj(b{j}{i}{n})" if i < j else f"b{i}{j}{n}"
+
+    def model_y(n, top=4):
+        return f"y{n}" if n >= top else f"f({model_y(n + 1, top)})"
+
+    requests_h = [(slice(None), slice(None), 1), ([0, 1], [1, 0], 2), (0, slice(None), slice(0, 3)), (slice(None), 1, [2, 0]),
+                  (slice(None), slice(None), slice(0, 2))]
+    for seq in itertools.permutations(range(len(requests_h)), 2):
+        log = []
+        s = herm_series(log)
+        for r in seq:
+            item = requests_h[r]
+            got = s[item]
+            n_req += 1
+            dense = np.empty((2, 2, 3), dtype=object)
+            for idx in itertools.product(range(2), range(2), range(3)):
+                dense[idx] = model_h(*idx)
+            want = dense[item]
+            if got.shape != want.shape or any(g != w for g, w in zip(np.ma.getdata(got).ravel(), want.ravel())):
+                V.append(f"adjoint-filled series, request {item}: values differ from the dense model")
+        dup = [k for k in set(log) if log.count(k) > 1]
+        if dup:
+            V.append(f"adjoint-filled series, requests {[requests_h[r] for r in seq]}: elements evaluated more than once: {sorted(dup)[:3]}")
+    for item in (slice(0, 5), [0, 2, 4], slice(1, 4), [3, 0]):
+        for first in (None, 2):
+            log = []
+            s = back_series(log)
+            if first is not None:
+                s[first]
+            got = s[item]
+            n_req += 1
+            want = np.array([model_y(n) for n in range(5)], dtype=object)[item]
+            if list(np.ma.getdata(got).ravel()) != list(want.ravel()):
+                V.append(f"backward recurrence, request {item}: values differ")
+            dup = [k for k in set(log) if log.count(k) > 1]
+            if dup:
+                V.append(f"backward recurrence, request {item} (after {first}): elements evaluated more than once: {sorted(dup)[:3]}")
+    return dict(violations=[dict(what=w, key=None) for w in V[:4]], nontrivial=True, outcome="dependent",
+                stats=dict(index_expressions=n_req), sample=dict(kind="dependent", requests=[str(r) for r in requests_h[:3]]))
